@@ -54,7 +54,7 @@ func TestGvcAdapterStylingQuoteChunks(t *testing.T) {
 		}
 		return sb.String()
 	}
-	for _, in := range []string{">  quoted\n", ">   a\n>  b\n", "> \t x"} {
+	for _, in := range []string{">  quoted\n", ">   a\n>  b\n", "> \t x", ">\u2003quoted", "> \u2003x\n"} {
 		whole := collect(styling.NewDecoder(strings.NewReader(in)))
 		bytewise := collect(styling.NewDecoder(iotest.OneByteReader(strings.NewReader(in))))
 		if whole != bytewise {
